@@ -905,7 +905,16 @@ class Spec(object):
                 if attr == "__name__":
                     return v.name
                 if attr == "mro":
-                    return v.mro
+                    def full_mro(cls=v):
+                        out = list(cls.mro())
+                        for c in cls.mro():
+                            for b in c.bases:
+                                if isinstance(b, type):
+                                    out.extend(x for x in b.__mro__ if x not in out)
+                        if object not in out:
+                            out.append(object)
+                        return out
+                    return full_mro
                 return Top("noattr %s.%s" % (v.qualname, attr))
             return r
         if isinstance(v, FuncRef):
@@ -1152,10 +1161,15 @@ class Spec(object):
         if f is isinstance and len(args) == 2:
             v, t = args
             if isinstance(v, (Instance, FuncRef, ClassRef, ModuleNS, BoundMethod)):
-                if isinstance(v, Instance) and isinstance(t, ClassRef):
-                    return t in v.cls.mro()
-                if isinstance(v, Instance) and isinstance(t, tuple):
-                    return any(isinstance(x, ClassRef) and x in v.cls.mro() for x in t)
+                if isinstance(v, Instance):
+                    # repo classes by identity in the MRO; builtin types through the builtin bases of the MRO (class X(int): isinstance(X(..), int))
+                    bb = tuple(b for c in v.cls.mro() for b in c.bases if isinstance(b, type))
+                    for x in (t if isinstance(t, tuple) else (t,)):
+                        if isinstance(x, ClassRef) and x in v.cls.mro():
+                            return True
+                        if isinstance(x, type) and (x is object or any(issubclass(b, x) for b in bb)):
+                            return True
+                    return False
                 return False
             if isinstance(v, Sym) and v.kind in KIND_TYPES and not is_sym(t):
                 ts = t if isinstance(t, tuple) else (t,)
